@@ -18,6 +18,13 @@ args, kwargs, name, key ...); values include the ones the host language takes fo
 lambda - and results that hold lazy sequences, produced twice.  Results are compared with their types at every depth
 (`typed`): Python's `==` is never used on results.  An evaluation that RAISES (any exception class: TypeError,
 AttributeError, KeyError ...) where the references return a value is an oracle failure like any other difference.
+Collections `.name` is applied to hold elements of MIXED kinds (records next to nested collections of records, literals /
+document fields / host variables / lazy sequences); 30% of the programs run on a context chain the HOST prepared - variables in
+the context handed to `yaql.create_context(context=..)` (below the library layers), in contexts stacked on the library context,
+the same name at several depths - with the document entering through `evaluate(data=..)` on the top context / a child,
+`yaql.create_context(data=..)` + `evaluate(context=..)` without data, or bound by the host itself at any depth; a fifth of the
+calls of builtin methods pass their trailing arguments - lambdas included - BY KEYWORD (`toDict(keySelector => .., valueSelector
+=> ..)`), some under names that are no parameter.
 Oracle (failing input): real differs from ref and the model does not side with real.
 Mismatch (tie broken): the model differs from real although ref agrees with real (a slip in the
 model), or ref is the odd one out (a slip in the transcription)."""
@@ -59,11 +66,17 @@ ASSUMPTIONS = ['documents are JSON-like: null / bool / int / float / str, lists,
                'functions of the fragment: let with def unpack list dict select where selectMany orderBy orderByDescending '
                'takeWhile skipWhile indexWhere toDict aggregate sum first toList take skip get len any all; operators '
                '+ - * = != < <= > >= and or not unary-; anything else is outside the model',
+               'keyword arguments of the 16 builtin methods with parameters are evaluated as the positional call that says the same '
+               '(Expr.positional; the keyword names are proved equal to the live registry\'s by C04Gen.kwParams_live); repeated '
+               'keywords, a parameter left out in between, eager keyword arguments written in another order than the parameters '
+               'and keyword arguments of the function form / of get / len are out of domain',
+               'host context chains: variables hold converted (frozen) data; the library layers between the host\'s contexts bind no '
+               'variable (empty_frame_invisible)',
                'function names are identified up to trailing underscores (documented: "all trailing underscores are stripped '
                'from the names"); every other name is data',
                'out of domain (skipped, counted): a variable holding a one-shot iterator read back, lazy sequences that '
-               'raise / orderings / context objects stored inside data, operators applied to lazy sequences, keyword '
-               'arguments of builtins, recursion deeper than the fuel']
+               'raise / orderings / context objects stored inside data (also: the projection of a NESTED collection that would '
+               'raise), operators applied to lazy sequences, recursion deeper than the fuel']
 
 OPTIONS = {'yaql.convertSetsToLists': True, 'yaql.limitIterators': 10000, 'yaql.memoryQuota': 10000000}
 FUEL = 400
@@ -1051,7 +1064,12 @@ LEVEL_TEXT = ('Lean 4 theorems, for ALL expressions, contexts, documents and fue
 LEVEL_NOTE = ('trusted: Lean kernel; the hand-written interpreter Yaql/Model/Eval.lean (reusing the value semantics of Model/Seq.lean '
               'and the name normalisation of Model/Context.lean); harness/evalref.py; the renderer (every text is parsed back by '
               'the engine under test and compared with the AST).  "frame" holds by construction of the representation (contexts '
-              'are values), so what is proved is its observable content.  The builtins inside the evaluator are dispatched by '
+              'are values), so what is proved is its observable content.  Round 5: `.name` maps over collections of mixed element '
+              'kinds (member_maps for arbitrary elements, member_elementwise); a variable bound at any depth of the host\'s '
+              'context chain is seen from every scope and where `$` is bound is irrelevant (host_var_visible, '
+              'doc_position_irrelevant); keyword arguments of builtin methods are the positional call that says the same '
+              '(toDict_by_keyword, lambda_by_keyword, select_by_keyword; keyword names = the live registry\'s: '
+              'C04Gen.kwParams_live).  The builtins inside the evaluator are dispatched by '
               'name / receiver kind; that this agrees with overload resolution on the real registry is checked by correspondence '
               'only.  Out of domain (skipped, counted): one-shot iterators read back from variables, raising generators / '
               'orderings / contexts stored inside data, operators on lazy sequences.')
